@@ -147,6 +147,43 @@ fn enum_eci(all_three_byte: bool) -> Vec<BytesCase> {
     v
 }
 
+/// Base256 segments whose announced length L (one- and two-codeword fields, correctly randomised)
+/// differs from what actually follows by -2 ..= +1 codewords, behind 0..2 ASCII codewords; also a
+/// two-codeword field whose second half is missing.
+fn enum_base256_lengths() -> Vec<BytesCase> {
+    let mut v = Vec::new();
+    for pre in 0..3usize {
+        for l in [1usize, 2, 3, 100, 248, 249, 250, 251, 252, 499, 500, 501, 749, 750, 751, 1000, 1304, 1305, 1553, 1554, 1555, 1556] {
+            for d in [-2isize, -1, 0, 1] {
+                let rest = l as isize + d;
+                if rest < 0 {
+                    continue;
+                }
+                let mut s = vec![66u8; pre];
+                s.push(231);
+                let field: Vec<u8> = if l < 250 { vec![l as u8] } else { vec![(l / 250 + 249) as u8, (l % 250) as u8] };
+                for f in field {
+                    let p = s.len() + 1;
+                    s.push(refimpl::codec::rand255(f, p));
+                }
+                for i in 0..rest as usize {
+                    let p = s.len() + 1;
+                    s.push(refimpl::codec::rand255((i * 7 + 65) as u8, p));
+                }
+                v.push(BytesCase { bytes: s, stratum: "enum-base256-announced-length" });
+            }
+        }
+        for first in 250..=255u8 {
+            let mut s = vec![66u8; pre];
+            s.push(231);
+            let p = s.len() + 1;
+            s.push(refimpl::codec::rand255(first, p));
+            v.push(BytesCase { bytes: s, stratum: "enum-base256-half-length-field" });
+        }
+    }
+    v
+}
+
 fn enum_charsets() -> Vec<BytesCase> {
     let mut v = Vec::new();
     for eci in [0u8, 3, 11, 13, 26, 27, 4, 20, 25, 30, 31, 126] {
@@ -299,6 +336,7 @@ fn run(ctx: &Arc<Ctx>) {
     ctx.run_enumerated("streams-latch", "stream", enum_latch(), Some("all [latch, a, b] for the 7 latch / shift / ECI codewords and all a, b"), check_stream);
     ctx.run_enumerated("streams-eci", "stream", enum_eci(!ctx.quick()), if ctx.quick() { None } else { Some("all three-codeword ECI designators [241, 192..=207, b, c]") }, check_stream);
     ctx.run_enumerated("streams-charset", "stream", enum_charsets(), Some("256 byte values x 12 ECI numbers (incl. 3, 11, 13, 26, 27), carried by ASCII and by Base256"), check_stream);
+    ctx.run_enumerated("streams-base256-length", "stream", enum_base256_lengths(), Some("announced Base256 lengths 1..1556 (both field forms) x actual remainder L-2..=L+1 x 0..2 leading ASCII codewords"), check_stream);
     // inputs far longer than any symbol (the entry points take any slice): 16-bit counters would wrap
     let mut huge = Vec::new();
     for n in [65_535usize, 65_536, 65_537, 70_000, 131_075] {
